@@ -61,6 +61,14 @@ func main() {
 	r.Cases("big/bounds", r.N(300, 6000), ev.Opt{HangViolation: true}, boundsBigCase)
 	r.Cases("setops/keep", r.N(20000, 300000), ev.Opt{HangViolation: true, Serial: true}, keepCase)
 	r.Cases("flex/types", r.N(8000, 160000), ev.Opt{HangViolation: true}, flexTypedCase)
+	// element types of size zero (all elements equal, address arithmetic divides by zero, lengths up to MaxInt cost no memory)
+	r.Cases("zero-size", r.N(300, 6000), ev.Opt{HangViolation: true, MaxCaseSeconds: 60}, zeroSizeCase)
+	r.Require("zero_size_setop_nonempty_inputs_dst_with_capacity", 2000)
+	r.Require("zero_size_chunk_len_plus_size_overflows", 2000)
+	r.Require("zero_size_window_calls", 100000)
+	r.Require("zero_size_flex_ops", 10000)
+	r.Require("zero_size_inplace_calls", 5000)
+	r.Require("zero_size_remove_calls", 5000)
 	r.Require("equal_nan_cases", 1000)
 	r.Require("flex_selfarg_capacity_limited_arg", 500)
 
